@@ -152,19 +152,33 @@ Definition default_maps (omitted : list term) : maps :=
                                      match tkids tp with [_; d] => match opt_kid d with Some e => [(ld (tlabel tp), e)] | None => [] end | _ => [] end
                                    else []) omitted |}.
 
-(* predicates the trait's parameters contribute: `'a: bounds`; `P: bounds` unless P is given a
-   concrete type (anything but a bare parameter of the block) *)
+(* does the type mention a parameter of the impl (any identifier with the reserved prefix)? *)
+Fixpoint mentions_param (t : term) {struct t} : bool :=
+  match t with
+  | Node l ks => is_param_ident (ld l) || existsb mentions_param ks
+  end.
+
+(* predicates the trait's parameters contribute (after fix F31): `'a: bounds`; `P: bounds` when P
+   is given a bare parameter of the block; the bounds without `?Sized` when P is given a type
+   built from parameters of the block; nothing when the type mentions no parameter (the compiler
+   checks the bound itself) *)
 Definition param_preds (m : maps) (tps : list term) : list term :=
   flat_map (fun tp =>
     let n := ld (tlabel tp) in
     if is_kind "GPLifetime" (tlabel tp) then [Node (K "PredLifetime" n) (tkids tp)]
     else if is_kind "GPTypeD" (tlabel tp) then
-      let concrete := match sget (ty_map m) n with
-                      | Some ty => match ty_param ty with Some _ => false | None => true end
-                      | None => false
-                      end in
-      if concrete then []
-      else [Node (K "PredType" "") (mk_ty_param n :: match tkids tp with _ :: bs => bs | [] => [] end)]
+      let bounds := match tkids tp with _ :: bs => bs | [] => [] end in
+      match sget (ty_map m) n with
+      | Some ty =>
+          if negb (mentions_param ty) then []
+          else match ty_param ty with
+               | Some _ => [Node (K "PredType" "") (mk_ty_param n :: bounds)]
+               | None =>
+                   let bs := filter (fun b => negb (is_kind "BTrait" (tlabel b) && negb (String.eqb (ld (tlabel b)) ""))) bounds in
+                   match bs with [] => [] | _ => [Node (K "PredType" "") (mk_ty_param n :: bs)] end
+               end
+      | None => [Node (K "PredType" "") (mk_ty_param n :: bounds)]
+      end
     else []) tps.
 
 (* ---- the predicates of the dispatch keys ---- *)
